@@ -63,9 +63,10 @@ RULE = ("fake-integrator cases: random entry point (integrateFuncJac, integrate2
         "equations re-written by hand from their docstrings / source). SCENARIO of every runtime case: t0 near the origin (0, 1/2, -1, 3) or, 40 %, far "
         "from it with both signs (+-738000, +-1e4, +-1e6, -123456.5, 1e7, 738000.5: spacing below 1e-5 |t|; a case whose whole horizon is shorter than 1e6 ulps of t is rejected), horizon x 1 / 2^-10 / 2^-20 / 2^-30 "
         "(t0 + tiny) / x 8 for decaying models (long); GRID MODIFICATIONS (weights none 10, repeat 3, tiny 2, ulp 1, at-t0 1, ulp-from-t0 1, one 2): "
-        "times repeated twice or three times, neighbours 4 / 64 / 2^20 ulps apart, neighbours one ulp apart, a first time equal to t0, a first "
+        "times repeated twice or three times, neighbours 4 / 2^12 / 2^16 / 2^20 ulps apart (a case with a step between 32 and 2048 ulps is rejected: a "
+        "freshly started vode is silently off by 6e-6 there, measured without pygom), neighbours one ulp apart, a first time equal to t0, a first "
         "time one ulp after t0, a one-point grid. Every row is judged against the reference integrated in the REAL time (repeated times share "
-        "a row, a time equal to t0 gets x0); on a grid with a step of at most 4 ulps an IntegrationError of the scipy.integrate.ode based entry "
+        "a row, a time equal to t0 gets x0); on a grid with a step of at most 32 ulps an IntegrationError of the scipy.integrate.ode based entry "
         "points is tagged `zero-length-step:*:not-judged` (unchanged scipy refuses such steps for some integrators / states), anything RETURNED is "
         "judged; when the first output lies within 4 ulps of t0 scipy's own odeint returns uninitialised rows (lsoda: 'tout too close to t') and "
         "the odeint-based entry points are not judged. All x 43 entry-point configurations "
@@ -104,14 +105,15 @@ ASSUMPTIONS = ["PARTIAL: scipy's integrators (odeint; ode: lsoda/vode/dopri5/dop
                "odeint-based entry points (integrate, solve_determ) run at scipy's default tolerance 1.49e-8: on instances where "
                "scipy's own odeint on the Lean right-hand side (no pygom involved) is itself further than 5e-8 (1+|ref|) from the "
                "reference, their acceptance is 20 x that error instead of 1e-6 (tagged odeint-acceptance=20x-direct-odeint-error)",
-               "grids with a zero-length or few-ulp step (repeated times, a first time at or next to t0) are inside the property's domain only "
+               "grids with a zero-length or few-ulp (<= 32) step (repeated times, a first time at or next to t0) are inside the property's domain only "
                "where the unchanged pygom / scipy return rows: an IntegrationError of the ode-based entry points there is tagged, not judged "
                "(which integrator refuses depends on the method, on full_output and, through the eigenvalue-driven restart, on the state); "
                "pygom.integrate does not look at odeint's success flag, so where scipy's odeint itself fails (first output within 4 ulps of "
                "t0) its rows are uninitialised memory - observed, outside the assumption 'the solver approximates the flow', not judged",
-               "an IntegrationError raised by an scipy.integrate.ode based entry point is not judged when scipy's own integrator for that method "
-               "(Lean right-hand side, no pygom) fails on the same instance (observed: derivative exactly zero at x0, far negative t0, "
-               "increments that are not representable - lsoda reports illegal input): tagged scipy-ode-refuses-this-instance",
+               "an IntegrationError raised by an scipy.integrate.ode based entry point, or a row off the reference returned by one, is not judged "
+               "when scipy's own integrator for that method (Lean right-hand side, no pygom; one object through the grid and a fresh one per "
+               "step) fails or is off by more than 1e-7 (1+|ref|) on the same instance (observed far from the origin: derivative exactly zero "
+               "at x0 - lsoda reports illegal input; vode-bdf silently off by 3e-4 on one particular step): tagged scipy-ode-*-this-instance",
                "random runtime instances are restricted to well-conditioned ones: reference exists, |x| <= 1e3, "
                "exp(int max(mu_2(J),0) dt) <= 20 along the reference, odeint at 1e-10 within 1e-8 (1+|ref|); others are rejected, "
                "counted in the input distribution, never judged",
@@ -272,7 +274,8 @@ def gen_scenario(rng, far_ok=True, long_ok=False):
     if k == "repeat":
         mods = [{"op": "repeat", "i": rng.randrange(8), "n": rng.choice([1, 1, 2])} for _ in range(rng.randint(1, 2))]
     elif k == "tiny":
-        mods = [{"op": "tiny", "i": rng.randrange(8), "ulps": rng.choice([4, 64, 2 ** 20])} for _ in range(rng.randint(1, 2))]
+        # (never between 32 and 2048 ulps: a freshly started vode is silently wrong by 6e-6 on a 64..256-ulp step at |t| = 1e6)
+        mods = [{"op": "tiny", "i": rng.randrange(8), "ulps": rng.choice([4, 2 ** 12, 2 ** 16, 2 ** 20])} for _ in range(rng.randint(1, 2))]
     elif k == "ulp":
         mods = [{"op": "ulp", "i": rng.randrange(8)}]
     elif k != "none":
@@ -309,12 +312,14 @@ def apply_gridmods(t0, grid, mods):
     return g
 
 
-def degenerate_steps(t0, grid):
-    """steps of the requested grid (t0 -> first time included) that are zero or at most 4 ulps long: scipy's `ode` integrators
-    report failure for (some of) them and pygom raises IntegrationError"""
+def degenerate_steps(t0, grid, lo=-1, hi=32):
+    """steps of the requested grid (t0 -> first time included) that are zero or at most 32 ulps long: scipy's `ode` integrators
+    report failure for (some of) them (every integrator up to 2 ulps, dopri5 / dop853 up to 16) and pygom raises IntegrationError.
+    With (lo, hi) = (32, 2048): the steps in the range where scipy's integrators neither refuse nor are accurate."""
     out, prev = [], float(t0)
     for j, t in enumerate(grid):
-        if abs(t - prev) <= 4 * float(np.spacing(max(abs(t), abs(prev)))):
+        u = float(np.spacing(max(abs(t), abs(prev))))
+        if lo * u < abs(t - prev) <= hi * u or (lo < 0 and t == prev):
             out.append(j)
         prev = t
     return out
@@ -1049,40 +1054,56 @@ def direct_solver_error(f, x0, t0, grid, ref):
     return out
 
 
-def scipy_ode_refuses(f, x0, t0, grid, method):
-    """does scipy's own `ode` integrator (the one documented for `method`, pygom's tolerances, the Lean right-hand side with a
-    finite-difference Jacobian - no pygom involved) fail on this instance, stepping through the grid with one integrator or with a
-    fresh one per step?  Observed on scipy 1.18: a derivative that is exactly zero at x0, a far negative t0 and increments that are
-    not representable make lsoda report 'illegal input'.  Where scipy itself gives up the assumption 'the solver approximates the
-    flow' fails on the instance and an IntegrationError raised by pygom is right, not a violation."""
+def scipy_ode_unreliable(f, x0, t0, grid, method, ref=None, full_output=False):
+    """does scipy's own `ode` integrator (pygom's tolerances, the Lean right-hand side with a finite-difference Jacobian - no pygom
+    involved) fail or lose accuracy on this instance?  Asked only when pygom raised IntegrationError or returned rows off the
+    reference.  The integrator documented for `method` steps through the grid once as ONE object and once freshly created at every
+    step; with `full_output` (where pygom re-chooses the integrator from the eigenvalues after every step) the fresh-per-step run
+    is also made with lsoda, dopri5 and vode.  Returns a reason or None.  Observed on scipy 1.18, far from the time origin:
+    a derivative that is exactly zero at x0 makes lsoda report 'illegal input' for some increments; vode-bdf reports success and is
+    off by 3e-4 on one particular step of 2e-4 at t0 = -738000 (0 of 400 random neighbouring steps).  Where scipy itself gives
+    up or is wrong the assumption 'the solver approximates the flow' fails on the instance and there is nothing to judge."""
     import warnings
     import scipy.integrate as si
-    name = DOC_INTEGRATOR.get(method, "lsoda")
-    kw = {"method": "bdf"} if name == "vode:bdf" else {}
+    doc = DOC_INTEGRATOR.get(method, "lsoda")
 
-    def make(x, t):
+    def make(name, x, t):
+        kw = {"method": "bdf"} if name == "vode:bdf" else {}
         args = (lambda t_, x_: f(t_, x_),) if name.startswith("dop") else (lambda t_, x_: f(t_, x_), lambda t_, x_: fd_jac(f, t_, x_))
         r = si.ode(*args).set_integrator(name.split(":")[0], nsteps=10000, atol=1e-10, rtol=1e-10, **kw)
         r.set_initial_value(np.array(x, dtype=float), float(t))
         return r
+
+    def off(rows):
+        if ref is None:
+            return False
+        a = np.array(rows, dtype=float)
+        return not np.all(np.isfinite(a)) or bool(np.max(np.abs(a - ref) / (1.0 + np.abs(ref))) > TOL / 10)
     try:
         with warnings.catch_warnings():
             warnings.simplefilter("ignore")
-            r = make(x0, t0)
+            r, rows = make(doc, x0, t0), []
             for t in grid:
                 r.integrate(float(t))
                 if not r.successful():
-                    return True
-            x, tc = np.array(x0, dtype=float), float(t0)
-            for t in grid:
-                r = make(x, tc)
-                r.integrate(float(t))
-                if not r.successful():
-                    return True
-                x, tc = r.y.copy(), float(t)
-    except Exception:
-        return True
-    return False
+                    return "%s-refuses" % doc
+                rows.append(r.y.copy())
+            if off(rows):
+                return "%s-inaccurate" % doc
+            for name in ([doc] + (["lsoda", "dopri5", "vode"] if full_output else [])):
+                x, tc, rows = np.array(x0, dtype=float), float(t0), []
+                for t in grid:
+                    r = make(name, x, tc)
+                    r.integrate(float(t))
+                    if not r.successful():
+                        return "fresh-%s-refuses" % name
+                    x, tc = r.y.copy(), float(t)
+                    rows.append(x)
+                if off(rows):
+                    return "fresh-%s-inaccurate" % name
+    except Exception as exc:
+        return "raised-%s" % type(exc).__name__
+    return None
 
 
 class _Rec(object):
@@ -1105,6 +1126,11 @@ class _Rec(object):
     def remove(self):
         import scipy.integrate
         scipy.integrate.ode = self.real
+
+
+def sig_method(sig):
+    m = sig.split("method=")[1].split(":")[0]
+    return None if m == "None" else m
 
 
 def bucket(r):
@@ -1199,6 +1225,10 @@ def run_runtime(case):
         # the whole horizon is shorter than a million ulps of t: the internal steps of every integrator are quantised and scipy
         # itself is no longer accurate to 1e-8 there (measured: errors up to 1e-4 from vode at |t| = 1e8, horizon 2e-3)
         return {"nontrivial": False, "mismatches": mism, "violations": viol, "tags": tags + ["rejected:horizon-below-1e6-ulps-of-t"]}
+    if degenerate_steps(t0, grid, 32, 2048):
+        # measured on scipy 1.18 without pygom: a freshly started vode asked for a step of 64..256 ulps at |t| = 1e6 reports success
+        # and is off by 6e-6; below 32 ulps the integrators refuse or are exact, above 2048 they are accurate
+        return {"nontrivial": False, "mismatches": mism, "violations": viol, "tags": tags + ["rejected:step-between-32-and-2048-ulps-of-t"]}
     if degenerate_steps(t0, grid):
         tags.append("grid-has-zero-or-few-ulp-step")
     tags.append("grid=%s" % case["grid_kind"])
@@ -1264,8 +1294,7 @@ def run_runtime(case):
                 # unchanged pygom / scipy: an `ode` integrator asked for a step of (nearly) zero length reports failure
                 tags.append("zero-length-step:%s:%s:not-judged" % (sig.split(":full_output")[0], type(exc).__name__))
                 return
-            if type(exc).__name__ in ZERO_STEP_ERRORS and "method=odeint" not in sig and \
-                    scipy_ode_refuses(f, x0, t0, g, sig.split("method=")[1].split(":")[0].replace("None", "") or None):
+            if type(exc).__name__ in ZERO_STEP_ERRORS and "method=odeint" not in sig and scipy_ode_unreliable(f, x0, t0, g, sig_method(sig)):
                 tags.append("scipy-ode-refuses-this-instance:%s:not-judged" % sig.split(":full_output")[0])
                 return
             viol.append({"what": "%s raised %s: %s" % (sig, type(exc).__name__, str(exc)[:200]),
@@ -1273,7 +1302,15 @@ def run_runtime(case):
             return
         sol = res[0] if has_output else res
         r = ref if g is grid else ref[-1:]
+        nv = len(viol)
         judge(sig, sol, r, x0, g, origin, viol, margins, sig.split(":")[0], acc_odeint if "method=odeint" in sig else TOL)
+        if len(viol) > nv and "method=odeint" not in sig and viol[-1]["signature"].split(":")[-1] in ("accuracy", "row-order", "rows-equal-final-state"):
+            # before a wrong row is reported: is scipy's own integrator (no pygom) right on this very instance?
+            why = scipy_ode_unreliable(f, x0, t0, g, sig_method(sig), ref=r, full_output="full_output=True" in sig or sig.startswith("integrate2"))
+            if why:
+                del viol[nv:]
+                margins.pop(sig.split(":")[0], None)
+                tags.append("scipy-ode-unreliable-on-this-instance:%s:%s:not-judged" % (sig.split(":full_output")[0], why))
         if want_first is not None and (not rec.calls or rec.calls[0] != want_first):
             viol.append({"what": "%s set up scipy integrator %s, the documented integrator for this method is %s" % (
                 sig, rec.calls[:1], want_first), "signature": sig + ":wrong-integrator", "detail": str(rec.calls[:5])})
@@ -1299,15 +1336,25 @@ def run_runtime(case):
                      lambda: ode_utils.integrateFuncJac(model.ode_T, model.jacobian_T, x0.copy(), t0, tg, includeOrigin=io,
                                                         full_output=fo, method=m), io, grid,
                      want_first=DOC_INTEGRATOR.get(m), has_output=fo)
-    # scalar time
+    # scalar time: ONE step from t0 to the last time.  Assumption A is validated for that call on its own (a single long step can
+    # alias a periodic rate that the grid resolves: scipy's odeint then returns x0 with "Integration successful.")
     tl = grid[-1]
-    if tl == t0 or abs(tl - t0) > 4 * float(np.spacing(max(abs(tl), abs(t0)))):
+    far_enough = abs(tl - t0) > 4 * float(np.spacing(max(abs(tl), abs(t0))))
+    dsc = direct_solver_error(f, x0, t0, [tl], ref[-1:]) if far_enough and not stiff else {"default": 0.0, "1e-10": 0.0}
+    acc_grid = acc_odeint
+    acc_odeint = max(acc_odeint, 20.0 * dsc["default"])
+    if acc_odeint != acc_grid:
+        tags.append("scalar-time:odeint-acceptance=20x-direct-odeint-error")
+    if tl == t0 or far_enough:
         fresh()
         call("integrate:method=odeint:full_output=False", lambda: model.integrate(tl), True, [tl])
-    fresh()
-    call("integrate2:method=None:full_output=False", lambda: model.integrate2(tl), True, [tl])
-    call("integrateFuncJac:method=None:full_output=False",
-         lambda: ode_utils.integrateFuncJac(model.ode_T, model.jacobian_T, x0.copy(), t0, tl), False, [tl])
+    if dsc["1e-10"] > TOL / 100:
+        tags.append("scalar-time:solver-inaccurate-at-1e-10:not-judged")
+    else:
+        fresh()
+        call("integrate2:method=None:full_output=False", lambda: model.integrate2(tl), True, [tl])
+        call("integrateFuncJac:method=None:full_output=False",
+             lambda: ode_utils.integrateFuncJac(model.ode_T, model.jacobian_T, x0.copy(), t0, tl), False, [tl])
     for k, v in margins.items():
         tags.append("margin:%s:%s" % (k, bucket(v * TOL)))
     tags.append("amp<=%s" % ("2" if info["amp"] <= 2 else "5" if info["amp"] <= 5 else "20" if info["amp"] <= 20 else "inf"))
@@ -1816,7 +1863,7 @@ def run_session(case):
         live[i] = {"model": m, "cur": {"params": None, "x0": None, "t0": None}, "last": None}
         return True
 
-    kept, handed, margins, first_result = [], [], {}, {}
+    kept, handed, margins, first_result, grid_acc = [], [], {}, {}, {}
     prev_inst = [None]
     counts = {"solves": 0, "visible": 0, "tagged": 0}
 
@@ -2005,7 +2052,7 @@ def run_session(case):
                 L["last"], prev_inst[0] = now, i
                 continue
             if type(exc).__name__ in ZERO_STEP_ERRORS and op["entry"] in ("integrate2", "integrateFuncJac") and not degenerate_steps(t0v, grid) \
-                    and scipy_ode_refuses(rhs(i, op["cfg"]), x0v, t0v, grid, op["method"]):
+                    and scipy_ode_unreliable(rhs(i, op["cfg"]), x0v, t0v, grid, op["method"]):
                 tags.append("session:scipy-ode-refuses-this-instance:not-judged")
                 counts["tagged"] += 1
                 L["last"], prev_inst[0] = now, i
@@ -2025,8 +2072,27 @@ def run_session(case):
         ref = np.array([R["rows"][t] for t in grid])
         snap = np.array(sol, dtype=float, copy=True)
         nv = len(viol)
+        # assumption A on THIS grid: scipy's own odeint (Lean right-hand side, no pygom) stepping through exactly the requested times.
+        # (one long step can alias a periodic rate that the union of all grids resolves: x' = c (1 + cos(2 pi t)/2) x - ... from t0 to
+        # t0 + 1 in one go returns x0 with "Integration successful." at the default tolerance)
+        gkey = (root(i), op["cfg"], tuple(grid))
+        if gkey not in grid_acc:
+            ug = sorted(set(t for t in grid if abs(t - t0v) > 4 * float(np.spacing(max(abs(t), abs(t0v))))))
+            grid_acc[gkey] = direct_solver_error(rhs(i, op["cfg"]), x0v, t0v, ug, np.array([R["rows"][t] for t in ug])) if ug else {"default": 0.0, "1e-10": 0.0}
+        dse = grid_acc[gkey]
+        if dse["1e-10"] > TOL / 100 and "method=odeint" not in sig:
+            tags.append("session:solver-inaccurate-on-this-grid:not-judged")
+            counts["tagged"] += 1
+            continue
         judge("session:%s:history=%s" % (sig, hcls), snap, ref, x0v, grid, origin, viol, margins, sig.split(":")[0],
-              R["acc_odeint"] if "method=odeint" in sig else TOL)
+              max(R["acc_odeint"], 20.0 * dse["default"]) if "method=odeint" in sig else TOL)
+        if len(viol) > nv and "method=odeint" not in sig and viol[-1]["signature"].split(":")[-1] in ("accuracy", "row-order", "rows-equal-final-state"):
+            why = scipy_ode_unreliable(rhs(i, op["cfg"]), x0v, t0v, grid, op["method"], ref=ref, full_output=op["fo"] or op["entry"] == "integrate2")
+            if why:
+                del viol[nv:]
+                tags.append("session:scipy-ode-unreliable-on-this-instance:%s:not-judged" % why)
+                counts["tagged"] += 1
+                continue
         for v in viol[nv:]:
             v["detail"] = "op=%s ; %s" % (json.dumps(op), v["detail"])
         kept.append((sol, snap, sig, hcls, len(kept)))
